@@ -76,7 +76,7 @@ def run_stepwise(builders):
             kind, fn = user
             new_rows = []
             for r in rows:
-                r = copy.deepcopy(r)
+                r = [copy.deepcopy(row) for row in r]
                 if kind == 'row':
                     out = []
                     for row in r:
@@ -91,7 +91,8 @@ def run_stepwise(builders):
             ds_in = None
         else:
             pkg = Package(copy.deepcopy(desc))
-            ds_in = d.DataStream(pkg, [d.ResourceWrapper(res, iter(copy.deepcopy(r)))
+            # value semantics: every row is copied on its own, so nested values shared BETWEEN rows do not stay shared
+            ds_in = d.DataStream(pkg, [d.ResourceWrapper(res, iter([copy.deepcopy(row) for row in r]))
                                        for res, r in zip(pkg.resources, rows)], [])
         with boot.quiet():
             ds_out = d.Flow(step).datastream(ds_in)
